@@ -26,8 +26,6 @@ DEFINITE = (
     'invariant not satisfied before loop',
     'fails to satisfy',
     'callee.requires',
-    'cannot prove',
-    'not satisfied',
 )
 UNDECIDED = ('resource limit', 'rlimit', 'timed out', 'solver')
 
@@ -90,6 +88,8 @@ def classify(diag):
     if msg.startswith('aborting due to'):
         return None
     low = msg.lower()
+    if diag.get('code'):
+        return 'tool'   # rustc error code => type / borrow / resolution error, never a proof failure
     for u in UNDECIDED:
         if u in low:
             return 'undecided'
